@@ -298,3 +298,9 @@ def run(ctx):
              "publish the CPU's global index on every accepting path, for an active and for a paused thread")
     from rules import round4
     round4.check_affinity_value_is_gindex(ctx, "R5.8")
+    ctx.rule("R5.9", "the CPU rows follow a thread through every state in which it may move: the affinity handlers admit "
+             "active threads by the cached is_active flag, which thread_set_state must raise for running, cooling and "
+             "warming alike (C04 R4.3's evaluation of thread_set_state on every state); with a state left out an OAs "
+             "of a legal history is refused instead of being followed by the CPU rows")
+    round4.share(ctx, "R5.9", "C04", lambda i_: i_["rule"] == "R4.3" and i_["inst"].startswith("thread_set_state:TH_ST_"),
+                 "flags:", "an affinity change of a thread in that state is refused or misses the CPU rows", 6)
